@@ -676,7 +676,9 @@ impl<'a, T: Serializable> MemoryMapped<'a> for MappedSlice<'a, T> {
         }
         let slice: &[u64] = map.as_ref();
         let len = slice[offset] as usize;
-        if offset + 1 + len * T::elements() > map.len() {
+        // The header may be arbitrary data, so the comparison must not overflow.
+        let fits = len.checked_mul(T::elements()).map_or(false, |elements| elements <= map.len() - offset - 1);
+        if !fits {
             return Err(Error::new(ErrorKind::UnexpectedEof, "The file is too short"));
         }
         let source: &[u64] = &slice[offset + 1 ..];
@@ -777,7 +779,8 @@ impl<'a> MemoryMapped<'a> for MappedBytes<'a> {
         }
         let slice: &[u64] = map.as_ref();
         let len = slice[offset] as usize;
-        if offset + 1 + bits::bytes_to_words(len) > map.len() {
+        // The header may be arbitrary data, so the comparison must not overflow.
+        if len > bits::words_to_bytes(map.len() - offset - 1) {
             return Err(Error::new(ErrorKind::UnexpectedEof, "The file is too short"));
         }
         let source: &[u64] = &slice[offset + 1 ..];
@@ -866,7 +869,8 @@ impl<'a> MemoryMapped<'a> for MappedStr<'a> {
         }
         let slice: &[u64] = map.as_ref();
         let len = slice[offset] as usize;
-        if offset + 1 + bits::bytes_to_words(len) > map.len() {
+        // The header may be arbitrary data, so the comparison must not overflow.
+        if len > bits::words_to_bytes(map.len() - offset - 1) {
             return Err(Error::new(ErrorKind::UnexpectedEof, "The file is too short"));
         }
         let source: &[u64] = &slice[offset + 1 ..];
